@@ -81,15 +81,15 @@ theorem tc_roundtrip (t : TransferControl) (h : t.version < 16) :
   obtain ⟨v, s, r, a⟩ := t
   simp only at h
   cases s <;> cases r <;> cases a <;>
-    simp [TransferControl.fromByte, TransferControl.toByte, bit] <;> omega
+    simp [TransferControl.fromByte, TransferControl.toByte, bit, Consts.c17BdxSenderDriveBit, Consts.c17BdxReceiverDriveBit, Consts.c17BdxAsyncBit, Consts.c17BdxDefLenBit, Consts.c17BdxStartOffsetBit, Consts.c17BdxWideRangeBit] <;> omega
 
 theorem tc_toByte_lt (t : TransferControl) : t.toByte < 256 := by
   obtain ⟨v, s, r, a⟩ := t
-  cases s <;> cases r <;> cases a <;> simp [TransferControl.toByte] <;> omega
+  cases s <;> cases r <;> cases a <;> simp [TransferControl.toByte, Consts.c17BdxSenderDriveBit, Consts.c17BdxReceiverDriveBit, Consts.c17BdxAsyncBit, Consts.c17BdxDefLenBit, Consts.c17BdxStartOffsetBit, Consts.c17BdxWideRangeBit] <;> omega
 
 theorem rc_roundtrip (r : RangeControl) : RangeControl.fromByte r.toByte = r := by
   obtain ⟨d, s, w⟩ := r
-  cases d <;> cases s <;> cases w <;> simp [RangeControl.fromByte, RangeControl.toByte, bit]
+  cases d <;> cases s <;> cases w <;> simp [RangeControl.fromByte, RangeControl.toByte, bit, Consts.c17BdxSenderDriveBit, Consts.c17BdxReceiverDriveBit, Consts.c17BdxAsyncBit, Consts.c17BdxDefLenBit, Consts.c17BdxStartOffsetBit, Consts.c17BdxWideRangeBit]
 
 theorem rdRange_wr (wide : Bool) (x : Nat) (rest : List Nat) (h1 : wide = false → x < 4294967296)
     (h2 : x < 18446744073709551616) : rdRange wide (wrRange wide x ++ rest) = .ok (x, rest) := by
